@@ -8,7 +8,7 @@ from ..core import short_exc
 
 PROP = "C19"
 LEVEL = "exploration"
-N = {"quick": 10000, "thorough": 250000}
+N = {"quick": 60000, "thorough": 1200000}
 RULE = ("1-3 GeneralInstanceGenerators with seeded parameters (int or range for jobs / machines, duration range, both "
         "flags, machines_per_operation int or range, seed or None, iteration limit, suffix) driven by an op list that "
         "interleaves generate() / next() / list() of the generators with each other, with a random-rule solver and with "
